@@ -265,6 +265,83 @@ def check_isolation(case: typing.Any, ctx: Ctx) -> Info:
     return Info(bool(related or added), classes, sample=where[:1200])
 
 
+# ----------------------------------------------------------------------------------------------------------------------
+# Histories: "depends only on the targets and the definitions they transitively reference" also means: not on what the process has
+# read before.  A lookup namespace holds two minor versions of one type that contradict each other (sealing / extent / kind /
+# port-ID); each is referenced by another target, never both by one.  Every call of a drawn sequence of read_files calls (with or
+# without a print handler) must give what the same call gives when it is the first one made on a pristine copy of the workspace.
+
+CONFLICTING_PAIRS = [
+    ("CS.1.0.dsdl", "uint8 a\n@sealed\n", "CS.1.1.dsdl", "uint8 a\n@extent 64\n"),
+    ("CS.1.0.dsdl", "uint8 a\n@extent 64\n", "CS.1.1.dsdl", "uint8 a\n@extent 128\n"),
+    ("7010.CS.1.0.dsdl", "@sealed\n", "CS.1.1.dsdl", "@sealed\n"),
+    ("7010.CS.1.0.dsdl", "@sealed\n", "7011.CS.1.2.dsdl", "@sealed\n"),
+    ("CS.1.0.dsdl", "uint16 a\n@sealed\n", "CS.1.3.dsdl", "uint8 a\n@sealed\n"),
+]
+
+
+def check_history(case: typing.Any, ctx: Ctx) -> Info:
+    import shutil
+
+    import pydsdl
+
+    ws = copy.deepcopy(case["ws"])
+    pair = CONFLICTING_PAIRS[case["pair"] % len(CONFLICTING_PAIRS)]
+    d = ctx.scratch()
+    try:
+        first = os.path.join(d, "first")
+        os.makedirs(first)
+        wsp.write(ws, first)
+        lk = os.path.join(first, "lkconf", "conf")
+        tr = os.path.join(first, wsp.root_dir(ws, 0))
+        os.makedirs(lk)
+        for fn, text in ((pair[0], pair[1]), (pair[2], pair[3])):
+            with open(os.path.join(lk, fn), "w") as f:
+                f.write(text)
+        users = []
+        for k, fn in enumerate((pair[0], pair[2])):
+            short, major, minor = fn.split(".")[-4:-1]
+            users.append("User%d.1.0.dsdl" % k)
+            with open(os.path.join(tr, users[-1]), "w") as f:
+                f.write("@assert conf.%s.%s.%s._extent_ >= 0\nuint8 x\n@sealed\n" % (short, major, minor))
+        n = len(ws["defs"])
+        rels = [wsp.rel_path(ws, x) for x in ws["defs"]] + [os.path.join(wsp.root_dir(ws, 0), u) for u in users]
+        root_rels = [wsp.root_dir(ws, i) for i in range(len(ws["roots"]))] + [os.path.join("lkconf", "conf")]
+
+        def call(base: str, step: typing.Any) -> typing.Any:
+            targets = sorted({t % len(rels) for t in step["targets"]})
+            if step["one_user"] is not None:
+                targets = [t for t in targets if t < n] + [n + step["one_user"] % 2]  # never both users: that set is contradictory
+            paths = [os.path.join(base, rels[t]) for t in targets]
+            roots = [os.path.join(base, r) for r in root_rels]
+            prints: typing.List[typing.Any] = []
+            handler = (lambda p, l, t: prints.append((os.path.relpath(os.path.realpath(str(p)), os.path.realpath(base)), l, t))) if step["handler"] else None
+            try:
+                direct, trans = pydsdl.read_files(paths, roots, None, handler, True)
+            except pydsdl.InvalidDefinitionError as ex:
+                p_ = os.path.relpath(os.path.realpath(str(ex.path)), os.path.realpath(base)) if ex.path else None
+                return ["error", type(ex).__name__, p_, ex.line], prints
+            names = lambda ts: [(t.full_name, t.version.major, t.version.minor, os.path.relpath(os.path.realpath(str(t.source_file_path)), os.path.realpath(base)), wsp.fingerprint(t)) for t in ts]
+            return ["ok", names(direct), names(trans)], prints
+
+        # the whole history first, uninterrupted (the reference calls below must not get between its steps) ...
+        gots = []
+        for step in case["steps"]:
+            got, _ = guarded(call, first, step, what="read_files:in-history")
+            gots.append(got)
+        # ... then every step once more, alone, on a pristine copy
+        for si, step in enumerate(case["steps"]):
+            pristine = os.path.join(d, "pristine%d" % si)
+            shutil.copytree(first, pristine, symlinks=True)
+            want, _ = guarded(call, pristine, step, what="read_files:alone")
+            shutil.rmtree(pristine, ignore_errors=True)
+            require(gots[si] == want, "outcome-depends-on-earlier-calls", want, gots[si], "step %d of %s; conflicting pair %s / %s in lkconf/conf" % (si + 1, case["steps"], pair[0], pair[2]))
+    finally:
+        ctx.cleanup(d)
+    both = {s_["one_user"] % 2 for s_ in case["steps"] if s_["one_user"] is not None}
+    return Info(len(both) == 2, ["history", "steps:%d" % len(case["steps"]), "both-users-read" if len(both) == 2 else "one-user"], sample={"steps": case["steps"], "pair": [pair[0], pair[2]]})
+
+
 def parts(ctx: Ctx) -> typing.List[Part]:
     ws = st.one_of(
         wsp.definitions(max_defs=8, roots=3, min_roots=2, min_defs=3),
@@ -297,4 +374,10 @@ def parts(ctx: Ctx) -> typing.List[Part]:
             "malformed": st.one_of(st.none(), st.none(), st.integers(0, 2)),
         }
     )
-    return [Part("isolation", cases, check_isolation, weight=1)]
+    step = st.fixed_dictionaries({"targets": st.lists(st.integers(0, 30), min_size=0, max_size=2), "one_user": st.one_of(st.none(), st.integers(0, 1), st.integers(0, 1)), "handler": st.booleans()}).filter(
+        lambda s_: s_["targets"] or s_["one_user"] is not None
+    )
+    history_cases = st.fixed_dictionaries(
+        {"ws": wsp.definitions(max_defs=5, roots=2, min_defs=1, shorts=["A", "B", "Msg"], subs=["sub"]), "pair": st.integers(0, len(CONFLICTING_PAIRS) - 1), "steps": st.lists(step, min_size=2, max_size=4)}
+    )
+    return [Part("isolation", cases, check_isolation, weight=4), Part("history", history_cases, check_history, weight=1, cost=2.0)]
